@@ -32,7 +32,7 @@ def block_hash(info):
 BLOCKS = [(BLOCK_A, BLOCK_A_INFO), (BLOCK_B, BLOCK_B_INFO)]
 BLOCK_C, BLOCK_C_INFO = mk_header(19, seed=21, cb_len=64 + 1, extra_len=0, mmproof_len=32, diff_len=1)
 BROS = [(BRO_1, BRO_1_INFO), (BRO_2, BRO_2_INFO), (BLOCK_C, BLOCK_C_INFO)]
-CHUNKS = [255, 100, 33]
+CHUNKS = [255, 100, 80]
 STOPS = [None, (0, "partial"), (0, "success"), (1, "partial"), (1, "success")]
 
 # brother lists for (block 0, block 1): indices into BROS, in the order the client gives them
@@ -41,11 +41,11 @@ BROLISTS = [
 ]
 
 
-@obligation(tier="quick", parts=len(BROLISTS) * 2, timeout=240,
+@obligation(tier="quick", parts=len(BROLISTS) * 2, timeout=360,
             part_names=lambda i: "%d block(s), brothers %s" % (1 + i % 2, BROLISTS[i // 2],),
             bounds="advanceBlockchain: 1 or 2 blocks and the client's brother lists (8 shapes, incl. unsorted ones) are partitions; symbolic: "
                    "whether the device asks for the brothers of block 0 / block 1, where it stops (never | partial or total success after "
-                   "block 0 | after block 1), chunk size class {255, 100, 33}",
+                   "block 0 | after block 1), chunk size class {255, 100, 80}",
             examples=[(0, dict(ask0=True, ask1=True, stop=0, ci=0)), (9, dict(ask0=False, ask1=True, stop=0, ci=1)),
                       (7, dict(ask0=True, ask1=False, stop=3, ci=2)), (4, dict(ask0=True, ask1=True, stop=1, ci=0)),
                       (15, dict(ask0=True, ask1=True, stop=4, ci=1))])
